@@ -1,6 +1,7 @@
 (* Props/C01.v — snapshot reads are stable. *)
 From Coq Require Import List NArith Arith Bool.
 From SKV Require Import Base.Lex Txn.WriteSet Spec.Store Spec.Cursor Spec.Machine Lsm.CompactKey Lsm.CompactKeySpec Lsm.CompactKey_proofs.
+From SKV Require Import Lsm.LevelsParams Lsm.Levels Lsm.LevelsSpec Lsm.Levels_proofs.
 Import ListNotations.
 
 (* On the specification a snapshot's view is a function of the first s commits only:
@@ -24,3 +25,21 @@ Example C01_compact_example :
   compact_key true false 0 0 [1%N] [ {| vseq := 2; vkind := CDel; vts := 2 |}; {| vseq := 1; vkind := CSet; vts := 1 |} ]%N
   = [ {| vseq := 2; vkind := CDel; vts := 2 |}; {| vseq := 1; vkind := CSet; vts := 1 |} ]%N.
 Proof. vm_compute. reflexivity. Qed.
+
+(* ---- the level structure (Lsm/Levels.v; rules generated from the sources, see Props/C06.v) ---- *)
+Theorem C01_levels_anchors : LEVELS_ANCHORS_OK = true.
+Proof. reflexivity. Qed.
+(* a snapshot's point read is the newest version at or below its horizon over ALL sources *)
+Theorem C01_get_is_view : get_is_view_stmt current.
+Proof. exact (get_is_view current eq_refl). Qed.
+(* ... and stays what it was through ANY sequence of later commits (larger sequence numbers), rotations,
+   flushes, compactions that were given the snapshot's horizon, and reopens — both through get and through
+   the merging iterator *)
+Theorem C01_run_view_stable : run_view_stable_stmt current.
+Proof. exact (run_view_stable current eq_refl). Qed.
+(* the invariant the above needs survives every such sequence *)
+Theorem C01_run_inv : run_inv_stmt current.
+Proof. exact (run_inv current eq_refl). Qed.
+(* regression record: first-hit-wins in level 0 (before 4492089) answers a stale version in a reachable state *)
+Theorem C01_old_l0_rule_stale : old_l0_rule_stale_stmt.
+Proof. exact old_l0_rule_stale. Qed.
